@@ -40,10 +40,17 @@ func (s *Sim) auditLedger(li int, when string) {
 		if d := chainedLogDiff(r.Orig, cl); d != "" {
 			s.violate("C13", "round-trip-changes-entry", fmt.Sprintf("%s (%s): entry %d (%s) read back from its stored form differs from what was written: %s", m.Name, when, idx, r.Type, d), feat...)
 		}
+		// Whether the stored hash chains onto the actual predecessor is C05's question; here the
+		// round-tripped content must hash exactly like the written content, and therefore
+		// reproduce the stored hash whenever the written content did.
 		lg := cl.Log
 		re := lg.ChainLog(prevCL)
-		if !bytes.Equal(re.Hash, r.Hash) {
-			s.violate("C13", "hash-not-reproducible", fmt.Sprintf("%s (%s): entry %d (%s): recomputing the hash from the round-tripped content and the previous hash does not give the stored hash", m.Name, when, idx, r.Type), feat...)
+		ol := r.Orig.Log
+		want := ol.ChainLog(prevCL)
+		if !bytes.Equal(re.Hash, want.Hash) {
+			a, _ := json.Marshal(r.Orig.Log)
+			b, _ := json.Marshal(lg)
+			s.violate("C13", "hash-not-reproducible", fmt.Sprintf("%s (%s): entry %d (%s): recomputing the hash from the round-tripped content and the previous hash does not give the stored hash; written form %s, read-back form %s", m.Name, when, idx, r.Type, a, b), feat...)
 		}
 		// the JSON form served by the API / export: Marshal then ChainedLog.UnmarshalJSON
 		func() {
@@ -66,7 +73,7 @@ func (s *Sim) auditLedger(li int, when string) {
 				s.violate("C13", "json-round-trip-changes-entry", fmt.Sprintf("%s (%s): entry %d (%s): %s", m.Name, when, idx, r.Type, d), feat...)
 			}
 			bl := back.Log
-			if !bytes.Equal(bl.ChainLog(prevCL).Hash, r.Hash) {
+			if !bytes.Equal(bl.ChainLog(prevCL).Hash, want.Hash) {
 				s.violate("C13", "hash-not-reproducible", fmt.Sprintf("%s (%s): entry %d (%s): hash recomputed from the JSON round trip differs from the stored hash", m.Name, when, idx, r.Type), append(feat, "json")...)
 			}
 		}()
@@ -259,6 +266,14 @@ func (s *Sim) reexecOne(ctx context.Context, name string, e *Entry, o *OpRecord,
 			s.count("reexec.panic")
 		}
 	}()
+	if o.Op.Kind == "script" && o.Op.Tpl == tplBalance && o.Op.Src != o.Op.Src2 {
+		// balance() of an account that is not a source is only read-locked, and a
+		// deposit needs no more than a read lock on its destination: the looked-up
+		// amount may legitimately predate a concurrent deposit. The property's
+		// criterion (the sources held enough for what was taken) is check (a).
+		s.count("reexec.skipped-nonsource-balance")
+		return
+	}
 	store := vm.StaticStore{}
 	get := func(addr string) *vm.AccountWithBalances {
 		a, ok := store[addr]
